@@ -23,6 +23,9 @@ Labs1      == {2}
 Slcs       == {<<1, 2>>, <<2, 3>>, <<0, 0>>, <<3, 3>>, <<0, 2>>}
 Slcs2      == {<<2, 3>>, <<0, 2>>}
 Paths      == {"attr", "item", "label", "slice"}
+DOneL      == {"l"}
+Slcs1      == {<<2, 3>>}
+Paths2     == {"attr", "slice"}
 
 CodeOf(n)  == IF n = "" THEN 0 ELSE NameIdx(n)
 RECURSIVE MapSum(_, _)
@@ -30,11 +33,15 @@ MapSum(m, i) == IF i = 0 THEN 0 ELSE MapSum(m, i - 1) + i * (CodeOf(m[i][1]) + 5
 MapHash(m, n) == MapSum(m, Len(m)) + 7 * n
 AdmitShard(m, n) == MapHash(m, n) % NShards = Shard
 
+AdmitAll(m, n) == TRUE
+AdmitOpAll(o) == TRUE
+
 KindSeq == <<"attr", "item", "label", "slice", "replace", "read", "solve">>
 KindIdx(k) == CHOOSE i \in 1..7 : KindSeq[i] = k
 DSeq == <<"s", "n", "l", "b", "-", "attr", "item", "label", "slice">>
 DIdx(d) == CHOOSE i \in 1..9 : DSeq[i] = d
 OpCode(o) == 97 * KindIdx(o.kind) + 31 * CodeOf(o.name) + 7 * DIdx(o.opd) + 3 * o.lab + 5 * o.a + 11 * o.b + 13 * CodeOf(o.name2)
+AdmitOpShard(o) == (MapHash(amap, nv) + OpCode(o)) % NShards = Shard
 RECURSIVE HistSum(_)
 HistSum(i) == IF i = 0 THEN 0 ELSE HistSum(i - 1) + (2 * i + 1) * OpCode(hist[i].op)
 RECURSIVE KwSum(_)
